@@ -34,6 +34,10 @@ CHECKS = {
    text='For every pending upgrade of the generated histories (plus Meta-rich histories with 3-4 together/index entries) the `evolve --sql` text must equal, statement by statement with parameters substituted, what `evolve --execute` issues between applying_evolution and applied_evolution from the same snapshot; the name `set` is shadowed in the SQL/hint generating modules by an order-controlled subclass and every single iteration-order deviation (all permutations for sets <= 4; pairs of deviations in thorough) must leave preview and hint text unchanged; the same cases are digested under 4 (quick) / 16 (thorough) hash seeds in separate interpreters.',
    note='Set literals/comprehensions and dict order are only covered by the finite seed sweep; a seed difference that the order exploration cannot explain is listed in the evidence.',
    design='3/C14'),
+ 'C15': dict(level='exploration', technique='exhaustive enumeration of app-removal configurations through the real evolve --purge command and Evolver API, plus BFS over DeleteModel/DeleteApplication sequences, with table-level non-interference oracle',
+   text='Two generated projects (3 and 4 apps with cross-app FK/M2M, self M2M, custom db_table names that are prefixes of each other) x every dependency-closed non-empty subset of apps removed from the installed set x {--purge, no purge} x {evolve command, Evolver.queue_purge_old_apps}: the dropped tables must be exactly the tables owned by the removed apps incl. their M2M tables, every other table must be byte-identical (sqlite_master entries and rows), the stored signature must lose exactly those apps, and without --purge nothing may change; plus every DeleteModel/DeleteApplication sequence to depth 2/3 through the bare AppMutator under the C01 oracle.',
+   note='Only dependency-closed subsets can be removed from INSTALLED_APPS (Django itself would not start otherwise).',
+   design='3/C15'),
  'C17': dict(level='fault_enumeration', technique='acceptor over the interleaved signal/statement log of every fault-free and every faulted run of the C07 enumeration plus no-op and two-app runs',
    text='A small acceptor checks every run: evolving at most once and before any change; exactly one of evolved/evolving_failed, evolved only after the version row is saved and after the last change; applying_*/creating_models paired with their counterparts unless the run fails in between; every non-bookkeeping effect statement lies between a pair; _evolve_lock restored.',
    note='Deferred index SQL for new models and PRAGMA statements are not attributed to a signal pair; migration signals are exercised by C10.',
